@@ -692,7 +692,7 @@ class Interp:
             return Ref(path)
         base = self.eval(node.value, fr)
         if self.dom.is_value(base) or isinstance(base, Phi):
-            r = self.dom.call("." + node.attr, [base], {}, node, self)
+            r = self._dom_call("." + node.attr, [base], {}, node)
             if r is not NotImplemented:
                 return r
             raise Unsupported(f"{fr.fi.loc(node)}: attribute .{node.attr} of an abstract value: {short(node)}")
